@@ -510,6 +510,10 @@ class Project(MessageHandler):
         # then A should also be ALAP (scheduled as late as possible)
         self._propagateALAPMode(scIdx)
 
+        # Containers whose children were all placed by the milestone pass are complete
+        # already; tasks depending on them must not wait for another leaf to be scheduled
+        self._updateContainerTaskStatus(scIdx)
+
         # Only care about leaf tasks that aren't scheduled already
         tasks: list[Any] = [t for t in all_tasks if t.leaf() and not t.get("scheduled", scIdx)]
 
